@@ -116,78 +116,99 @@ def _proj_simplex(v, total):
     return np.maximum(v - tau, 0)
 
 
-def simplex_ls(A, b, total, maxit=60000, rel=1e-10):
-    """min 0.5||Ap-b||^2 s.t. p>=0, sum p = total.  Accelerated projected gradient with
-    restarts, followed by an active-set polish.  Returns (p, f(p), gap) where
-    f* >= f(p) - gap (Frank-Wolfe certificate)."""
+def simplex_ls(A, b, total, maxit=3000, rel=1e-10):
+    """min 0.5||Ap-b||^2 s.t. p>=0, sum p = total.  Accelerated projected gradient warm
+    start followed by a primal active-set method (exact KKT solves on the support).  Returns
+    (p, f(p), gap) where f* >= f(p) - gap (Frank-Wolfe certificate computed from p alone)."""
     n = A.shape[1]
     total = float(total)
     if A.shape[0] == 0:
         p = np.ones(n) * total / n
         return p, 0.0, 0.0
+    if n == 1:
+        p = np.array([total])
+        return p, ls_loss(A, b, p), 0.0
     L = np.linalg.norm(A, 2) ** 2 + 1e-300
+    AtA = A.T @ A
+    Atb = A.T @ b
+    grad = lambda v: AtA @ v - Atb
     x = np.ones(n) * total / n
     z = x.copy()
     t = 1.0
-    AtA = A.T @ A if n <= 1024 else None
-    Atb = A.T @ b
-    fx_prev = ls_loss(A, b, x)
-
-    def grad(v):
-        return (AtA @ v - Atb) if AtA is not None else A.T @ (A @ v - b)
-
     for it in range(maxit):
         g = grad(z)
         xn = _proj_simplex(z - g / L, total)
         tn = (1 + math.sqrt(1 + 4 * t * t)) / 2
         z = xn + (t - 1) / tn * (xn - x)
-        if g @ (xn - x) > 0:  # gradient restart
+        if g @ (xn - x) > 0:
             z = xn.copy()
             tn = 1.0
         x, t = xn, tn
-        if it % 100 == 99:
-            fx = ls_loss(A, b, x)
-            if fw_gap(A, b, x, total) <= rel * max(1.0, fx):
-                break
-            if it % 1000 == 999:
-                xp = _polish(A, b, x, total)
-                if xp is not None and fw_gap(A, b, xp, total) <= rel * max(1.0, ls_loss(A, b, xp)):
-                    x = xp
-                    break
-    xp = _polish(A, b, x, total)
-    if xp is not None and ls_loss(A, b, xp) <= ls_loss(A, b, x) + 1e-15 and \
-            fw_gap(A, b, xp, total) <= fw_gap(A, b, x, total):
-        x = xp
-    return x, ls_loss(A, b, x), max(0.0, fw_gap(A, b, x, total))
+        if it % 100 == 99 and fw_gap(A, b, x, total) <= rel * max(1.0, ls_loss(A, b, x)):
+            break
+    best = x
+    if fw_gap(A, b, x, total) > rel * max(1.0, ls_loss(A, b, x)):
+        xa = _active_set(A, b, AtA, Atb, x, total)
+        if xa is not None and fw_gap(A, b, xa, total) < fw_gap(A, b, best, total):
+            best = xa
+    return best, ls_loss(A, b, best), max(0.0, fw_gap(A, b, best, total))
 
 
-def _polish(A, b, x, total):
-    """Equality-constrained solve on the current support (exact KKT point if support is right)."""
-    S = np.where(x > 1e-9 * total / max(1, x.size))[0]
-    for _ in range(3):
-        if S.size == 0:
-            return None
-        As = A[:, S]
-        k = S.size
-        K = np.zeros((k + 1, k + 1))
-        K[:k, :k] = As.T @ As
-        K[:k, k] = 1
-        K[k, :k] = 1
-        rhs = np.concatenate([As.T @ b, [total]])
-        try:
-            sol = np.linalg.lstsq(K, rhs, rcond=None)[0]
-        except Exception:
-            return None
-        ps = sol[:k]
-        if (ps >= -1e-12 * total).all():
-            p = np.zeros_like(x)
-            p[S] = np.maximum(ps, 0)
-            s = p.sum()
-            if s <= 0:
+def _kkt(AtA, Atb, S, total):
+    k = S.size
+    K = np.zeros((k + 1, k + 1))
+    K[:k, :k] = AtA[np.ix_(S, S)]
+    K[:k, k] = 1
+    K[k, :k] = 1
+    rhs = np.concatenate([Atb[S], [total]])
+    sol = np.linalg.lstsq(K, rhs, rcond=None)[0]
+    return sol[:k]
+
+
+def _active_set(A, b, AtA, Atb, x0, total):
+    n = x0.size
+    x = x0.copy()
+    inS = x > 1e-12 * total
+    if not inS.any():
+        inS[np.argmax(x)] = True
+    x[~inS] = 0
+    x *= total / x.sum()
+    scale = max(1.0, float(np.abs(Atb).max()))
+    for it in range(20 * n + 50):
+        S = np.where(inS)[0]
+        ps = _kkt(AtA, Atb, S, total)
+        xs = x[S]
+        neg = ps < -1e-13 * total
+        if neg.any():
+            d = ps - xs
+            with np.errstate(divide='ignore', invalid='ignore'):
+                ratios = np.where(d < 0, xs / (-d), np.inf)
+            ratios[~neg] = np.inf
+            tstep = float(min(1.0, ratios.min()))
+            xs = xs + tstep * d
+            hit = (xs <= 1e-15 * total) & (d < 0)
+            if not hit.any():
+                hit[np.argmin(ratios)] = True
+            xs[hit] = 0
+            x[S] = np.maximum(xs, 0)
+            inS[S[hit]] = False
+            if not inS.any():
                 return None
-            return p * (total / s)
-        S = S[ps > 0]
-    return None
+            x *= total / x.sum()
+            continue
+        x[:] = 0
+        x[S] = np.maximum(ps, 0)
+        x *= total / x.sum()
+        g = AtA @ x - Atb
+        lam = float(g[S] @ x[S]) / total
+        out = np.where(~inS)[0]
+        if out.size == 0:
+            return x
+        j = out[np.argmin(g[out])]
+        if g[j] >= lam - 1e-12 * scale:
+            return x
+        inS[j] = True
+    return x
 
 
 # ---------------------------------------------------------------------------
